@@ -635,7 +635,7 @@ func TestC09(t *testing.T) {
 	defer r.End()
 	all := append(append([]string{}, consistentRankers...), inconsistentRankers...)
 	core.DFS(r, core.Check[sortCase]{Name: "all-small-arrays", Gen: genSortExhaustive(r.N(7, 9), all), Exec: execSortCase, NoJournal: true}, 0)
-	core.Rapid(r, core.Check[sortCase]{Name: "random-arrays", Gen: genSortRandom(r.N(700, 5000)), Exec: execSortCase}, r.N(600, 5000))
+	core.Rapid(r, core.Check[sortCase]{Name: "random-arrays", Gen: genSortRandom(5000), Exec: execSortCase}, r.N(600, 5000))
 	core.DFS(r, core.Check[catalogSortCase]{Name: "catalog-default-sort", Gen: func(s core.Source) catalogSortCase {
 		return catalogSortCase{Keys: core.Pick(s, []string{"float64", "pointer"}, "keys"), Order: enumOrderedSubset(s, 4, "key")}
 	}, Exec: execCatalogSort, NoJournal: true}, 0)
